@@ -412,8 +412,51 @@ func (e *Enc) applyContract(fr *Frame, st *State, c *Contract, args []*Val, rt t
 		} else {
 			menv := &Env{e: e, vars: vars, st: pre, old: pre, pkgPath: c.PkgPath, imports: c.Imports}
 			for i, m := range c.Modifies {
+				cond := "true"
+				if i < len(c.ModWhen) && c.ModWhen[i] != nil {
+					t, err := menv.evalBool(c.ModWhen[i])
+					if err != nil {
+						e.unsupportedf("modifies condition of %s: %v", c.Key, err)
+					} else {
+						cond = t
+					}
+				}
+				if cond == "false" {
+					continue // this call cannot modify the target: it is neither havocked nor counted as written
+				}
+				if id, ok := m.(*ECall); ok {
+					if fid, ok := id.Fun.(*EIdent); ok && fid.Name == "effects" && len(id.Args) == 1 {
+						e.havocEffects(fr, st, menv, id.Args[0], c)
+						continue
+					}
+				}
+				if cond == "true" {
+					if err := menv.havocTarget(st, m); err != nil {
+						e.unsupportedf("modifies %s of %s: %v", c.ModSrc[i], c.Key, err)
+					}
+					continue
+				}
+				// conditional havoc: new value where the condition holds, the old value elsewhere
+				before := map[string]string{}
+				for k, t := range st.heap {
+					before[k] = t
+				}
 				if err := menv.havocTarget(st, m); err != nil {
 					e.unsupportedf("modifies %s of %s: %v", c.ModSrc[i], c.Key, err)
+					continue
+				}
+				for _, k := range sortedKeys(st.heap) {
+					t := st.heap[k]
+					old, had := before[k]
+					if had && old == t {
+						continue
+					}
+					if !had {
+						old = e.heapGet(pre, k, e.heapSort[k])
+					}
+					n := e.fresh(k, e.heapSort[k])
+					e.assert(eq(n, ite(cond, t, old)))
+					st.heap[k] = n
 				}
 			}
 			e.bumpAlloc(st)
@@ -714,4 +757,55 @@ func (e *Enc) encCopy(fr *Frame, st *State, cc *ssa.CallCommon, args []*Val, rt 
 		e.heapSet(st, k, sorts[i], "(store "+h+" "+d.L[0].T+" "+na+")")
 	}
 	return &Val{T: rt, L: []Sc{{n, "Int"}}}
+}
+
+// havocEffects: `modifies effects(f)` at a call site — the callee may do whatever calling the function value f does, any
+// number of times. When f is a closure known at encode time its body is encoded once in a dry run to learn which heap
+// keys it writes (transitively through the contracts of its callees); exactly those are havocked. Otherwise everything is.
+func (e *Enc) havocEffects(fr *Frame, st *State, menv *Env, arg Expr, c *Contract) {
+	v, err := menv.eval(arg)
+	if err != nil || v == nil || v.Clos == nil || v.Clos.Fn == nil || v.Clos.Fn.Blocks == nil {
+		e.havocAll(st)
+		return
+	}
+	fn := v.Clos.Fn
+	d := e.beginDry(fr)
+	{
+		hst := st.clone()
+		var args []*Val
+		for _, p := range fn.Params {
+			args = append(args, e.freshVal(hst, "fx!"+p.Name(), p.Type()))
+		}
+		var rt types.Type
+		switch fn.Signature.Results().Len() {
+		case 0:
+		case 1:
+			rt = fn.Signature.Results().At(0).Type()
+		default:
+			rt = fn.Signature.Results()
+		}
+		e.inline(fr, hst, fn, v.Clos.Bind, args, rt, "fx", fn.Pos())
+	}
+	written := e.endDry(fr, d)
+	nonLocal := e.dryNonLocal
+	if written["*"] {
+		e.havocAll(st)
+		return
+	}
+	for _, k := range sortedKeys(written) {
+		if strings.HasPrefix(k, "RV|") {
+			continue
+		}
+		if _, ok := e.heapSort[k]; ok {
+			before := e.heapGet(st, k, e.heapSort[k])
+			e.heapHavoc(st, k)
+			// every write of the function value to this component goes through an object allocated by the current
+			// function (captured locals): objects that existed when the current function started are untouched
+			if !nonLocal[k] && refIndexedKey(k) {
+				e.assert("(forall ((r Int)) (! (=> (<= r alloc@0) (= (select " + st.heap[k] + " r) (select " + before + " r))) :pattern ((select " + st.heap[k] + " r))))")
+			} else if nonLocal[k] {
+				e.noteNonLocal(k)
+			}
+		}
+	}
 }
